@@ -1,7 +1,10 @@
 #!/bin/bash
 # development aid: tryseed.sh <patch.diff> <ID> [vcheck args]  - apply a seeded change to /repo, run the check, undo it
+# (the evidence file of the unchanged tree is preserved)
 p=$1; id=$2; shift 2
 git -C /repo apply "$p" || { echo "patch does not apply"; exit 3; }
-cd /verif && ./vcheck $id "$@"; rc=$?
+cd /verif; cp evidence/$id.json /tmp/evidence_$id.bak 2>/dev/null
+./vcheck $id "$@"; rc=$?
 git -C /repo checkout -- .
+cp /tmp/evidence_$id.bak evidence/$id.json 2>/dev/null; rm -f /tmp/evidence_$id.bak
 echo "exit=$rc"
